@@ -22,11 +22,14 @@ def pub_accepts(ctx, res):
 def run(ctx):
     res = vlib.Result(ctx, "model_checking")
     q = ctx.quick
-    r = ctx.tlc("MC_Provenance", "MC_Provenance.cfg",
-                consts={"UrlSet": '{"A/x", "B/x", "M/x"}' if q else '{"A/x", "B/x", "B/y", "M/x"}'}, timeout=3000).require_clean()
-    res.add_tlc(r)
-    g = ctx.tlc("MC_Provenance", "Gen_Provenance.cfg", workers=1, consts={"GenN": 500 if q else 5000}, extra=["-seed", str(ctx.seed)])
-    cases = g.json_lines("GEN")
+    # hosts are symmetric in the model; in the real world "A_p" shares A's host name and differs in the port only
+    urlsets = ['{"A/x", "A_p/x", "M/x"}'] if q else ['{"A/x", "B/x", "B/y", "M/x"}', '{"A/x", "A_p/x", "B/x", "M/x"}']
+    cases = []
+    for us in urlsets:
+        r = ctx.tlc("MC_Provenance", "MC_Provenance.cfg", consts={"UrlSet": us}, timeout=3000).require_clean()
+        res.add_tlc(r)
+        g = ctx.tlc("MC_Provenance", "Gen_Provenance.cfg", workers=1, consts={"UrlSet": us, "GenN": 500 if q else 4000}, extra=["-seed", str(ctx.seed)])
+        cases += g.json_lines("GEN")
     seen = set()
     uniq = []
     import json as _j
@@ -63,6 +66,8 @@ def run(ctx):
                        "ground-truth stamps travel in the fragment of each document's id (never sent, not inspected by servitor, key count unchanged)"]
     for b in bad:
         e = evs[b["line"] - 1]
+        if e["ev"] != "accept":
+            continue  # listing and author lines are C09's to report
         w = sess[b["line"]]
         sig = {"monitor": "T_Prov", "why": b["why"], "via": e.get("via")}
         path = vlib.save_replay(ctx.pid, "l%d" % b["line"], {"world": w and w.get("world"), "event": e})
